@@ -170,7 +170,16 @@ pub enum Op {
     /// models, mailbox capacity 1, `threads` = 1: single-threaded executor), process
     /// `events` events, leave `pending` scheduled events unprocessed, and drop it - all
     /// inside this handler, i.e. on an executor thread of the outer simulation (C19)
-    Nested { threads: u8, models: u8, events: u8, pending: u8 },
+    Nested {
+        threads: u8,
+        models: u8,
+        events: u8,
+        pending: u8,
+        /// 1: the first event makes an inner model panic (the inner run call returns
+        /// `Err(Panic)` to this handler, which carries on)
+        #[serde(default)]
+        inner_fault: u8,
+    },
 }
 
 #[derive(Clone, Debug, Serialize, Deserialize, PartialEq, Eq, Hash)]
@@ -597,8 +606,9 @@ impl Node {
                     models,
                     events,
                     pending,
+                    inner_fault,
                 } => {
-                    nested_sim(&self.shared, *threads, *models, *events, *pending);
+                    nested_sim(&self.shared, *threads, *models, *events, *pending, *inner_fault);
                     OpRes::Other
                 }
                 Op::Connect { out, target, tag } => {
@@ -1353,6 +1363,7 @@ pub fn res_kind<T>(r: &Result<T, ExecutionError>) -> Option<ErrKind> {
 pub struct InnerMsg {
     pub tok: Token,
     pub hops: u8,
+    pub poison: bool,
 }
 
 pub struct Inner {
@@ -1362,11 +1373,15 @@ pub struct Inner {
 
 impl Inner {
     pub async fn on(&mut self, m: InnerMsg) {
+        if m.poison {
+            std::panic::panic_any("scripted panic of an inner model");
+        }
         if m.hops > 0 {
             self.out
                 .send(InnerMsg {
                     tok: m.tok.clone(),
                     hops: m.hops - 1,
+                    poison: false,
                 })
                 .await;
         }
@@ -1374,7 +1389,7 @@ impl Inner {
 }
 impl Model for Inner {}
 
-pub fn nested_sim(shared: &Arc<Shared>, threads: u8, models: u8, events: u8, pending: u8) {
+pub fn nested_sim(shared: &Arc<Shared>, threads: u8, models: u8, events: u8, pending: u8, inner_fault: u8) {
     let n = models.clamp(1, 4) as usize;
     let mut ms: Vec<Inner> = (0..n)
         .map(|_| Inner {
@@ -1392,12 +1407,25 @@ pub fn nested_sim(shared: &Arc<Shared>, threads: u8, models: u8, events: u8, pen
         init = init.add_model(m, b, format!("inner{}", i));
     }
     let Ok((mut sim, sched)) = init.init(MonotonicTime::EPOCH) else { return };
+    if inner_fault == 1 {
+        // the inner run fails with a model panic, returned to this handler as an ordinary Err
+        let _ = sim.process_event(
+            Inner::on,
+            InnerMsg {
+                tok: Token::new(&shared.tokens),
+                hops: 0,
+                poison: true,
+            },
+            &first,
+        );
+    }
     for _ in 0..events.min(4) {
         let _ = sim.process_event(
             Inner::on,
             InnerMsg {
                 tok: Token::new(&shared.tokens),
                 hops: n as u8,
+                poison: false,
             },
             &first,
         );
@@ -1409,6 +1437,7 @@ pub fn nested_sim(shared: &Arc<Shared>, threads: u8, models: u8, events: u8, pen
             InnerMsg {
                 tok: Token::new(&shared.tokens),
                 hops: 1,
+                poison: false,
             },
             &first,
         );
